@@ -308,13 +308,16 @@ func (s *Subscriber) Close() error {
 func (s *Subscriber) doClose() error {
 	// Cancel idle handler cleaner.
 	close(s.closing)
+	verifYield("close:closing-closed", "")
 
 	// Block any additional explicit Sync calls.
 	s.expSyncMutex.Lock()
 	s.expSyncClosed = true
 	s.expSyncMutex.Unlock()
+	verifYield("close:exp-blocked", "")
 	// Wait for explicit Syncs calls to finish.
 	s.expSyncWG.Wait()
+	verifYield("close:exp-waited", "")
 
 	var err error
 	if s.receiver != nil {
@@ -325,12 +328,15 @@ func (s *Subscriber) doClose() error {
 		}
 		<-s.watchDone
 	}
+	verifYield("close:receiver-closed", "")
 
 	// Wait for any syncs to complete.
 	s.asyncWG.Wait()
+	verifYield("close:async-waited", "")
 
 	// Stop the distribution goroutine.
 	close(s.inEvents)
+	verifYield("close:inevents-closed", "")
 
 	s.httpPeerstore.Close()
 
@@ -348,12 +354,14 @@ func (s *Subscriber) OnSyncFinished() (<-chan SyncFinished, context.CancelFunc) 
 	// not reading the channel immediately.
 	cq := chanqueue.New[SyncFinished]()
 	ch := cq.In()
+	verifYield("listen:adding", "")
 	s.addEventChan <- ch
 
 	cncl := func() {
 		if ch == nil {
 			return
 		}
+		verifYield("listen:cancelling", "")
 		select {
 		case s.rmEventChan <- ch:
 		case <-s.closing:
@@ -444,6 +452,7 @@ func (s *Subscriber) SyncAdChain(ctx context.Context, peerInfo peer.AddrInfo, op
 		}
 	}
 
+	verifYield("sync:stop-read", peerInfo.ID)
 	var updateLatest bool
 	nextCid := opts.headAdCid
 	if nextCid == cid.Undef {
@@ -497,6 +506,7 @@ func (s *Subscriber) SyncAdChain(ctx context.Context, peerInfo peer.AddrInfo, op
 		return cid.Undef, fmt.Errorf("sync handler failed: %w", err)
 	}
 
+	verifYield("sync:handled", peerInfo.ID)
 	// The sync succeeded, so remember this address in the appropriate
 	// peerstore. Add to peerstore before sending the SyncFinished event so
 	// that the address is present before anything triggered by the event is
@@ -620,12 +630,14 @@ func (s *Subscriber) distributeEvents() {
 				}
 				return
 			}
+			verifYield("dist:forward", event.PeerID)
 			// Send update to all change notification channels.
 			for _, ch := range outEventsChans {
 				ch <- event
 			}
 		case ch := <-s.addEventChan:
 			outEventsChans = append(outEventsChans, ch)
+			verifYield("dist:added", "")
 		case ch := <-s.rmEventChan:
 			for i, ca := range outEventsChans {
 				if ca == ch {
@@ -636,6 +648,7 @@ func (s *Subscriber) distributeEvents() {
 					break
 				}
 			}
+			verifYield("dist:removed", "")
 		}
 	}
 }
@@ -704,10 +717,12 @@ func (s *Subscriber) watch() {
 			break
 		}
 
+		verifYield("watch:next", amsg.PeerID)
 		hnd := s.getOrCreateHandler(amsg.PeerID)
 
 		// Set the message to be handled by the waiting goroutine.
 		oldMsg := hnd.pendingMsg.Swap(&amsg)
+		verifYield("watch:swapped", amsg.PeerID)
 		// If rhw previous pending message was not nil, then there is an
 		// existing request to sync the ad chain.
 		if oldMsg != nil {
@@ -722,8 +737,10 @@ func (s *Subscriber) watch() {
 			// Wait for any previous asyncSyncAdChain to finish before removing the
 			// latest pending messaged and reducing the available items in the sync
 			// semaphore.
+			verifYield("async:start", hnd.peerID)
 			hnd.asyncMutex.Lock()
 			defer hnd.asyncMutex.Unlock()
+			verifYield("async:locked", hnd.peerID)
 			if s.syncSem != nil {
 				select {
 				case s.syncSem <- struct{}{}:
@@ -733,6 +750,7 @@ func (s *Subscriber) watch() {
 				case <-ctx.Done():
 				}
 			}
+			verifYield("async:sem", hnd.peerID)
 			hnd.asyncSyncAdChain(ctx)
 			s.asyncWG.Done()
 		}()
@@ -854,10 +872,12 @@ func (h *handler) asyncSyncAdChain(ctx context.Context) {
 
 	// Get the latest pending message.
 	amsg := h.pendingMsg.Swap(nil)
+	verifYield("async:taken", h.peerID)
 
 	adsDepthLimit := h.subscriber.adsDepthLimit
 	nextCid := amsg.Cid
 	latestSyncLink := h.subscriber.GetLatestSync(h.peerID)
+	verifYield("async:latest-read", h.peerID)
 	var stopAtCid cid.Cid
 	if latestSyncLink != nil {
 		stopAtCid = latestSyncLink.(cidlink.Link).Cid
@@ -886,6 +906,7 @@ func (h *handler) asyncSyncAdChain(ctx context.Context) {
 	}
 	sel := ExploreRecursiveWithStopNode(adsDepthLimit, h.subscriber.adsSelectorSeq, latestSyncLink)
 	syncCount, err := h.handle(ctx, nextCid, sel, syncer, h.subscriber.generalBlockHook, h.subscriber.segDepthLimit, stopAtCid)
+	verifYield("async:handled", h.peerID)
 	if err != nil {
 		// Failed to handle the sync, so allow another announce for the same CID.
 		if h.subscriber.receiver != nil {
@@ -964,11 +985,13 @@ func (ss *segmentedSync) reset() {
 
 func (h *handler) sendSyncFinishedEvent(c cid.Cid, count int) {
 	h.subscriber.latestSyncHandler.setLatestSync(h.peerID, c)
+	verifYield("event:latest-set", h.peerID)
 	h.subscriber.inEvents <- SyncFinished{
 		Cid:    c,
 		PeerID: h.peerID,
 		Count:  count,
 	}
+	verifYield("event:sent", h.peerID)
 }
 
 // handle processes a message from the peer that the handler is responsible for.
@@ -991,6 +1014,7 @@ func (h *handler) handle(ctx context.Context, nextCid cid.Cid, sel ipld.Node, sy
 	// to protect the scopedBlockHook map from having having another hook
 	// mapped to this peer ID.
 	h.syncMutex.Lock()
+	verifYield("handle:locked", h.peerID)
 	h.subscriber.scopedBlockHookMutex.Lock()
 	h.subscriber.scopedBlockHook[h.peerID] = hook
 	h.subscriber.scopedBlockHookMutex.Unlock()
@@ -998,6 +1022,7 @@ func (h *handler) handle(ctx context.Context, nextCid cid.Cid, sel ipld.Node, sy
 		h.subscriber.scopedBlockHookMutex.Lock()
 		delete(h.subscriber.scopedBlockHook, h.peerID)
 		h.subscriber.scopedBlockHookMutex.Unlock()
+		verifYield("handle:unlocking", h.peerID)
 		h.syncMutex.Unlock()
 	}()
 
